@@ -45,6 +45,8 @@ type world struct {
 	varSnap  []string
 	pathSnap []string
 	single   bool // the scenario has one task
+	zoneBase map[string]context.Context // shared base context per zone (an application-wide context carrying the time zone)
+	opts     map[string][]exec.Option   // option slices shared by all calls with the same options, with spare capacity
 }
 
 func decodeJSON(d DocSpec) (any, error) {
@@ -131,14 +133,16 @@ func loadZone(name string) (*time.Location, error) {
 // buildWorld parses and decodes everything the scenario shares and checks
 // the generator invariants the oracles rely on.
 func buildWorld(sc *Scenario) (*world, error) {
-	w := &world{sc: sc, zones: map[string]*time.Location{}, single: len(sc.Tasks) == 1}
+	w := &world{sc: sc, zones: map[string]*time.Location{}, single: len(sc.Tasks) == 1,
+		zoneBase: map[string]context.Context{}, opts: map[string][]exec.Option{}}
 	start, err := time.Parse(time.RFC3339, sc.Start)
 	if err != nil {
 		return nil, harnessf("bad start %q: %v", sc.Start, err)
 	}
 	w.startAt = start.UTC()
 	for i, txt := range sc.Paths {
-		p, err := path.Parse(txt)
+		tickProgress()
+		p, err := safeParse(txt)
 		if err != nil {
 			// Unparseable texts are legal only for "parse" ops.
 			w.paths = append(w.paths, nil)
@@ -195,6 +199,14 @@ func buildWorld(sc *Scenario) (*world, error) {
 					return nil, harnessf("task %d op %d: zone %q: %v", ti, oi, o.Zone, err)
 				}
 				w.zones[o.Zone] = loc
+				if loc != nil {
+					w.zoneBase[o.Zone] = types.ContextWithTZ(context.Background(), loc)
+				}
+			}
+			if o.IsExec() {
+				if _, ok := w.opts[optKey(o)]; !ok {
+					w.opts[optKey(o)] = w.buildOpts(o)
+				}
 			}
 			if o.Kind != "parse" && o.Kind != "scan" && o.Kind != "unmarshal" && w.paths[o.Path] == nil {
 				return nil, harnessf("task %d op %d: path %q does not parse", ti, oi, sc.Paths[o.Path])
@@ -288,8 +300,8 @@ func (t *task) yield(ev parkEvent) {
 // execOp performs one operation and returns its outcome. tk is nil for
 // reference ("alone") runs. shared selects the shared Path object; otherwise
 // the path text is parsed afresh.
-func (w *world) execOp(op OpSpec, tk *task, fresh bool) *Outcome {
-	out := &Outcome{StartNanos: time.Now().UnixNano()}
+func (w *world) execOp(op OpSpec, tk *task, fresh bool) (out *Outcome) {
+	out = &Outcome{StartNanos: time.Now().UnixNano()}
 	var st *opState
 	defer func() {
 		if r := recover(); r != nil {
@@ -375,7 +387,11 @@ func (w *world) execOp(op OpSpec, tk *task, fresh bool) *Outcome {
 	}
 	var ctx context.Context
 	var err error
-	st, ctx, err = newOpState(op, tk)
+	var root context.Context
+	if !op.TZOuter {
+		root = w.zoneBase[op.Zone]
+	}
+	st, ctx, err = newOpState(op, tk, root)
 	if err != nil {
 		panic(harnessf("%v", err))
 	}
@@ -388,26 +404,40 @@ func (w *world) execOp(op OpSpec, tk *task, fresh bool) *Outcome {
 		soleOp = st
 		defer func() { soleOp = nil }()
 	}
-	if loc := w.zones[op.Zone]; loc != nil {
+	if loc := w.zones[op.Zone]; loc != nil && op.TZOuter {
 		ctx = types.ContextWithTZ(ctx, loc)
 	}
-	var opts []exec.Option
-	if op.Vars >= 0 {
-		opts = append(opts, exec.WithVars(w.vars[op.Vars]))
-	}
-	if op.Vars2 > 0 {
-		// A second WithVars replaces the first (options apply in order).
-		opts = append(opts, exec.WithVars(w.vars[op.Vars2-1]))
-	}
-	if op.Silent {
-		opts = append(opts, exec.WithSilent())
-	}
-	if op.TZ {
-		opts = append(opts, exec.WithTZ())
-	}
+	// One option slice per option set, shared by every call that uses it
+	// (as a caller's package-level `var opts = []exec.Option{...}` would be).
+	opts := w.opts[optKey(op)]
 	doc := w.docs[op.Doc]
 	var ret any
 	switch op.Kind {
+	case "rekeyquery":
+		// The caller's own copy of the document: query it, rename object
+		// keys IN PLACE (same objects, same addresses, same sizes), query
+		// again, and compare with the same query on a fresh copy of the
+		// renamed document. A result may depend on the value of its
+		// input, never on which object carries it or on what that object
+		// held during an earlier call.
+		priv := deepCopy(doc)
+		r1, e1 := p.Query(ctx, priv, opts...)
+		rekey(priv)
+		r2, e2 := p.Query(ctx, priv, opts...)
+		r3, e3 := p.Query(ctx, deepCopy(priv), opts...)
+		// (Private copies live at different addresses in every call, so
+		// keyvalue ids are compared by rank, and paths that turn ids into
+		// plain values are not compared at all.)
+		if addrDependent(txt) {
+			out.Raw, out.Ranked = "addr-dependent", "addr-dependent"
+			return out
+		}
+		out.Ranked = renderItems(r1, true) + errSuffix(e1) + " / after in-place rename: " + renderItems(r2, true) + errSuffix(e2)
+		out.Raw = out.Ranked
+		if a, b := renderItems(r2, true)+errSuffix(e2), renderItems(r3, true)+errSuffix(e3); a != b {
+			out.Identity = "on the caller's document after an in-place rename of its keys: " + a + "; on a fresh copy of that same document: " + b
+		}
+		return out
 	case "query", "parsequery":
 		var items []any
 		items, err = p.Query(ctx, doc, opts...)
@@ -433,6 +463,11 @@ func (w *world) execOp(op OpSpec, tk *task, fresh bool) *Outcome {
 		out.Ranked = renderValue(ret, true)
 	}
 	out.setErr(err)
+	// What a call returns belongs to the caller. Values the call created
+	// (datetime items, keyvalue triples) are overwritten here, as a caller
+	// reusing them would; nobody else may notice.
+	scribble(ret)
+	out.rawKept = renderValue(ret, false)
 	return out
 }
 
@@ -440,6 +475,78 @@ func (o *Outcome) setErr(err error) {
 	if err != nil {
 		o.Err = err.Error()
 		o.Classes = errClasses(err)
+		o.errObj = err
+	}
+}
+
+func safeErrorText(err error) (s string) {
+	defer func() {
+		if r := recover(); r != nil {
+			s = fmt.Sprint("panic in Error(): ", r)
+		}
+	}()
+	return err.Error()
+}
+
+// safeParse is path.Parse with a panic turned into an error (Parse panics on
+// a few inputs on the unchanged tree, e.g. numeric literals out of range).
+func safeParse(text string) (p *path.Path, err error) {
+	defer func() {
+		if r := recover(); r != nil {
+			p, err = nil, fmt.Errorf("panic in Parse: %v", r)
+		}
+	}()
+	return path.Parse(text)
+}
+
+func optKey(o OpSpec) string {
+	return fmt.Sprintf("%d/%d/%v/%v", o.Vars, o.Vars2, o.Silent, o.TZ)
+}
+
+func (w *world) buildOpts(o OpSpec) []exec.Option {
+	opts := make([]exec.Option, 0, 8) // spare capacity on purpose
+	if o.Vars >= 0 {
+		opts = append(opts, exec.WithVars(w.vars[o.Vars]))
+	}
+	if o.Vars2 > 0 {
+		// A second WithVars replaces the first (options apply in order).
+		opts = append(opts, exec.WithVars(w.vars[o.Vars2-1]))
+	}
+	if o.Silent {
+		opts = append(opts, exec.WithSilent())
+	}
+	if o.TZ {
+		opts = append(opts, exec.WithTZ())
+	}
+	return opts
+}
+
+var scribbleTime = time.Date(1999, 12, 31, 23, 59, 59, 0, time.UTC)
+
+// scribble overwrites the values a call created for its caller.
+func scribble(v any) {
+	switch v := v.(type) {
+	case []any:
+		for _, e := range v {
+			switch e := e.(type) {
+			case *types.Date:
+				e.Time = scribbleTime
+			case *types.Time:
+				e.Time = scribbleTime
+			case *types.TimeTZ:
+				e.Time = scribbleTime
+			case *types.Timestamp:
+				e.Time = scribbleTime
+			case *types.TimestampTZ:
+				e.Time = scribbleTime
+			case map[string]any:
+				if _, ok := isKeyValueTriple(e); ok {
+					e["key"] = "scribbled"
+				}
+			}
+		}
+	case *types.Date, *types.Time, *types.TimeTZ, *types.Timestamp, *types.TimestampTZ, map[string]any:
+		scribble([]any{v})
 	}
 }
 
@@ -459,7 +566,20 @@ func panicSite(stack []byte) string {
 	for i := 0; i+1 < len(lines); i++ {
 		l := lines[i]
 		if strings.HasPrefix(l, "github.com/theory/sqljson/") {
-			return strings.TrimSpace(l) + " " + strings.TrimSpace(lines[i+1])
+			// Function name and file:line only: argument values and PC
+			// offsets differ between executions.
+			fn := l
+			if k := strings.LastIndex(fn, "("); k > 0 {
+				fn = fn[:k]
+			}
+			loc := strings.TrimSpace(lines[i+1])
+			if k := strings.Index(loc, " +0x"); k > 0 {
+				loc = loc[:k]
+			}
+			if k := strings.LastIndex(loc, "/path/"); k >= 0 {
+				loc = loc[k+1:]
+			}
+			return strings.TrimSpace(fn) + " " + loc
 		}
 	}
 	return "?"
@@ -747,8 +867,13 @@ func (w *world) runConcurrent() *runResult {
 	for _, t := range tasks {
 		for oi, o := range t.results {
 			if o.ret != nil && o.ret != "noitems" && o.Panic == "" {
-				if now := renderValue(o.ret, false); now != o.Raw {
-					res.changed = append(res.changed, changedResult{t.id, oi, o.Raw, now})
+				if now := renderValue(o.ret, false); now != o.rawKept {
+					res.changed = append(res.changed, changedResult{t.id, oi, o.rawKept, now})
+				}
+			}
+			if o.errObj != nil {
+				if now := safeErrorText(o.errObj); now != o.Err {
+					res.changed = append(res.changed, changedResult{t.id, oi, "error " + o.Err, "error " + now})
 				}
 			}
 		}
@@ -915,4 +1040,72 @@ func uniformScalars(m map[string]any) bool {
 		}
 	}
 	return true
+}
+
+func renderItems(items []any, ranked bool) string {
+	if items == nil {
+		return "<nil>"
+	}
+	return renderValue(items, ranked)
+}
+
+func errSuffix(err error) string {
+	if err == nil {
+		return ""
+	}
+	return " err=" + err.Error()
+}
+
+func deepCopy(v any) any {
+	switch v := v.(type) {
+	case map[string]any:
+		m := make(map[string]any, len(v))
+		for k, e := range v {
+			m[k] = deepCopy(e)
+		}
+		return m
+	case []any:
+		a := make([]any, len(v))
+		for i, e := range v {
+			a[i] = deepCopy(e)
+		}
+		return a
+	}
+	return v
+}
+
+// rekey renames, in place, the keys of every object that is wide (8 or more
+// members) or holds only scalars: k becomes k+"_". Objects keep their
+// identity and their size.
+func rekey(v any) {
+	switch v := v.(type) {
+	case map[string]any:
+		leaf := true
+		for _, e := range v {
+			switch e.(type) {
+			case map[string]any, []any:
+				leaf = false
+			}
+			rekey(e)
+		}
+		if leaf || len(v) >= 8 {
+			keys := make([]string, 0, len(v))
+			for k := range v {
+				keys = append(keys, k)
+			}
+			sort.Strings(keys)
+			vals := make([]any, len(keys))
+			for i, k := range keys {
+				vals[i] = v[k]
+				delete(v, k)
+			}
+			for i, k := range keys {
+				v[k+"_"] = vals[i]
+			}
+		}
+	case []any:
+		for _, e := range v {
+			rekey(e)
+		}
+	}
 }
